@@ -17,6 +17,7 @@ import ButlerModel.Driver.C08
 import ButlerModel.Driver.C19
 import ButlerModel.Driver.C20
 import ButlerModel.Driver.C05
+import ButlerModel.Driver.C06
 /-! Line-protocol driver: one request per line on stdin, one reply per line on stdout.
 The first token selects the model; stateful models keep their state in `DState`. -/
 
@@ -41,6 +42,7 @@ def step (st : DState) (line : String) : DState × String :=
   | "dim" :: rest => (st, Driver.C12.handle rest)
   | "expr" :: rest => (st, Driver.C14.handle rest)
   | "cfg" :: rest => (st, Driver.C18.handle rest)
+  | "jn" :: rest => (st, Driver.C06.handle rest)
   | "ev" :: rest => (st, Driver.C05.handle rest)
   | "conc" :: rest => (st, Driver.C20.handle rest)
   | "txn" :: rest => (st, Driver.C07.handle rest)
